@@ -342,8 +342,9 @@ def idle_cases(workdir, quick=True):
                "live_loops": s.live_loops("h1"), "run": 1, "seq": len(out), "t": 0,
                "loops_started": sum(1 for r in s.trace if r["e"] == "run_started"),
                "resp_returned": sorted(r["got_uid"] for r in s.trace if r["e"] == "wait_ret"),
-               "sends_ok": sorted(r["uid"] for r in s.trace if r["e"] == "send_ext" and r["ok"]),
-               "sends_failed": sorted(r["uid"] for r in s.trace if r["e"] == "send_ext" and not r["ok"]),
+               "sends_ok": sorted({r["uid"] for r in s.trace if r["e"] == "send_ext" and r["ok"]}),
+               "sends_failed": sorted({r["uid"] for r in s.trace if r["e"] == "send_ext" and not r["ok"]}
+                                      - {r["uid"] for r in s.trace if r["e"] == "send_ext" and r["ok"]}),
                "max_live_loops": max([r["n"] for r in s.trace if r["e"] == "loops"] + [0])}
         rec.update(extra)
         rec.setdefault("idle_at_ms", 0)
@@ -376,6 +377,25 @@ def idle_cases(workdir, quick=True):
                                              "expect_result": "done", "expect_resp": ["x0"]}))
         finally:
             s.close()
+    # 1a'. a store with real I/O: the idle timer fires, the release task has READ the row and holds the reload lock while the
+    #      reply is in flight -- a client event arrives in that window (ServerStack.tla: ReleaseRead ... SendCheck ... ReleaseAct,
+    #      SendLock); the event must still be processed to completion
+    s = mk(sc.resumable_wait())
+    try:
+        s.hold_release_read = True
+        s.advance_to_ms(int(IDLE * 1000) + 500)
+        held = getattr(s, "release_gate", None) is not None and not s.release_gate.done()
+        t = s.send("h1", "Resp", "x0", 1)
+        s.open_release_gate()
+        s.run_to_end(s.now_ms() + 40000)
+        if not any(r["e"] == "send_ext" and r["uid"] == "x0" and r["ok"] for r in s.trace):
+            s.settle_send(t, "h1", "Resp", "x0")
+        out.append(final(s, "send_during_release_read", {"gap_ms": int(IDLE * 1000) + 500, "idle_timeout_ms": int(IDLE * 1000),
+                                                        "released": False, "released_at": -1, "idle_row_before_send": True,
+                                                        "busy_at_release": False, "read_was_held": bool(held),
+                                                        "expect_result": "done", "expect_resp": ["x0"]}))
+    finally:
+        s.close()
     # 1b. a non-integral idle_timeout
     for (idle, gap_ms) in ((1.5, 1000), (1.5, 2500), (0.4, 1000)):
         s = mk(sc.resumable_wait(), idle)
